@@ -85,6 +85,18 @@ func newPlayer(px *proxy.Proxy, i int) *proxy.C12Player {
 
 func idxOf(p proxy.Player) int { return uidNum(p.ID()) }
 
+// scramble reorders and overwrites a returned list in place: reverse it, then copy its first entry over
+// all others (a caller may do anything to a list it was handed — the built-in /server and /glist sort it).
+func scramble[T any](l []T) {
+	for i, j := 0, len(l)-1; i < j; i, j = i+1, j-1 {
+		l[i], l[j] = l[j], l[i]
+	}
+	for i := 1; i < len(l); i++ {
+		l[i] = l[0]
+	}
+}
+
+// joinInts keeps duplicates visible: the list is sorted, not deduplicated.
 func joinInts(l []int) string {
 	if len(l) == 0 {
 		return "-"
@@ -167,17 +179,21 @@ func (w *world) apply(f []string) string {
 			return "r=" + b01(w.px.Unregister(srvInfo(atoi(f[1]))))
 		case "players":
 			var l []int
-			for _, p := range w.px.Players() {
+			got := w.px.Players()
+			for _, p := range got {
 				l = append(l, idxOf(p))
 			}
+			scramble(got) // the list is ours: whatever we do to it must not show up anywhere else
 			return "r=" + joinInts(l)
 		case "count":
 			return "r=" + strconv.Itoa(w.px.PlayerCount())
 		case "servers":
 			var l []int
-			for _, s := range w.px.Servers() {
+			got := w.px.Servers()
+			for _, s := range got {
 				l = append(l, atoi(strings.TrimPrefix(s.ServerInfo().Name(), "s")))
 			}
+			scramble(got)
 			return "r=" + joinInts(l)
 		case "slen":
 			return "r=" + strconv.Itoa(w.lobby.Players().Len())
@@ -355,7 +371,8 @@ func child(scn string, iters int) string {
 					}
 					var l []int
 					seen := map[int]bool{}
-					for _, p := range px.Players() {
+					got := px.Players()
+					for _, p := range got {
 						i := idxOf(p)
 						if seen[i] {
 							fail("duplicate")
@@ -366,6 +383,7 @@ func child(scn string, iters int) string {
 					if scn == "players" && !isWindow(l) {
 						fail("mixed")
 					}
+					scramble(got)
 					_ = px.PlayerCount()
 				}
 			}(g)
@@ -404,6 +422,12 @@ func child(scn string, iters int) string {
 			}()
 		}
 	case "servers":
+		const perm = 48
+		for i := 0; i < perm; i++ { // permanent servers, registered in descending name order
+			if _, err := px.Register(srvInfo(900000 + perm - i)); err != nil {
+				return "register-failed"
+			}
+		}
 		for g := 0; g < W; g++ {
 			writers.Add(1)
 			go func(g int) {
@@ -415,25 +439,43 @@ func child(scn string, iters int) string {
 					} else {
 						px.Unregister(srvInfo(g*1000 + (k-1)%lag))
 					}
+					if k%16 == 0 {
+						time.Sleep(50 * time.Microsecond) // leave the listers some quiet time between changes
+					}
 				}
 			}(g)
 		}
 		for g := 0; g < R; g++ {
 			readers.Add(1)
-			go func() {
+			go func(g int) {
 				defer readers.Done()
 				for !stop.Load() {
-					seen := map[string]bool{}
-					for _, s := range px.Servers() {
-						n := s.ServerInfo().Name()
-						if seen[n] {
-							fail("duplicate")
+					l := px.Servers()
+					seen := map[string]int{}
+					for _, s := range l {
+						if s == nil {
+							fail("nil-entry")
+							continue
 						}
-						seen[n] = true
+						seen[s.ServerInfo().Name()]++
+					}
+					for n, c := range seen {
+						if c != 1 {
+							fail("duplicate")
+							_ = n
+						}
+					}
+					for i := 1; i <= perm; i++ {
+						if seen["s"+strconv.Itoa(900000+i)] != 1 {
+							fail("mixed")
+						}
+					}
+					if g%2 == 0 { // half of the listers behave like /server and /glist: sort what they got, in place
+						sort.Slice(l, func(a, b int) bool { return l[a].ServerInfo().Name() < l[b].ServerInfo().Name() })
 					}
 					_ = px.Server("s1")
 				}
-			}()
+			}(g)
 		}
 	default:
 		return "bad-scenario"
@@ -519,6 +561,10 @@ func main() {
 	sequence(run, "fixed:listing", []string{"players", "count", "join 0", "join 1", "join 2", "players", "count",
 		"leave 1", "players", "count", "join 0", "leave 1", "servers", "regsrv 3", "regsrv 3", "servers", "unregsrv 3",
 		"unregsrv 3", "servers", "sadd 0", "sadd 7", "srange", "slen", "discall", "players", "count", "srange", "discall"})
+	// a returned list belongs to its caller: two listings in a row with no registry change in between
+	sequence(run, "fixed:fresh-copy", []string{"regsrv 1", "regsrv 2", "regsrv 3", "regsrv 4", "servers", "servers", "servers",
+		"unregsrv 2", "servers", "servers", "join 0", "join 1", "join 2", "join 3", "players", "players", "count", "leave 2",
+		"players", "players", "servers"})
 	// DisconnectAll on its own with many players online (as found: fatal error in the process)
 	run.Case("conc:discallonce", "conc discallonce 3000", runChild("discallonce", 3000))
 
